@@ -108,9 +108,9 @@ Definition line_class (b : bytes) : Z :=
   if fuzzy_line b 0 then 2 else if max_line b 0 0 <? FUZZY_LO then 0 else 1.
 (* Short-line inputs: the parser model of C09/C10, projected to the observable part of the table.
    Inputs with over-long lines: the line recogniser above (parse_bytes has no recovery mode). *)
-(* round 5: bodies with a 6-60 KB line (a record that does not fit the parser's 10 KiB buffer) are generated from the
+(* round 5: bodies with a 4-60 KB line (a record that does not fit the parser's 10 KiB buffer) are generated from the
    subset of the format the line recogniser knows; C09's run-length recogniser needs seconds per such line *)
-Definition LITE_FROM : Z := 6000.
+Definition LITE_FROM : Z := 4100.
 Definition NEVER : Z := 1000000000.      (* no line is that long: nothing is discarded *)
 Definition parse_drv (b : bytes) : option (table * option bytes) :=
   if max_line b 0 0 <? LITE_FROM then
